@@ -1,0 +1,7 @@
+//go:build !verif
+
+package nilness
+
+import "honnef.co/go/tools/go/ir"
+
+func verifCallee(*ir.Call, []ValueNilness) {}
